@@ -96,6 +96,7 @@ def run(ctx: Any, prog: Program) -> None:
     ctx.rule('C15.F4', 'pixel access is bounded below and strictly above in both coordinates before the offset is formed', floor=4)
     ctx.rule('C15.F5', 'mipmap scaling: equal-or-double sizes only; bilinear = mean of the four parents', floor=4)
     ctx.rule('C15.F6', 'particle sheet reader and writer agree per version', floor=6)
+    ctx.rule('C15.F7', 'read() keeps out of the raw resource table every id that save() writes from structured state', floor=3)
 
     rd, sv = vm['read'], vm['save']
     # ---- F1 --------------------------------------------------------------------------------------------------
@@ -177,6 +178,15 @@ def run(ctx: Any, prog: Program) -> None:
     cnt_packs = [c for c in walk_no_nested(sv) if isinstance(c, ast.Call) and dotted(c.func) == 'struct.pack' and len(c.args) == 2 and isinstance(c.args[0], ast.Constant) and expand(str(c.args[0].value)) == expand('<3xI8x')
                  and isinstance(c.args[1], ast.Name)]
     res_count_var = cnt_packs[0].args[1].id if len(cnt_packs) == 1 else 'res_count'
+    # save() writes the object, it does not edit it: nothing is stored into self.resources (directly or through a local alias of it).  The
+    # encoded particle sheet parked there would be read back by the NEXT save as a raw resource - also after sheet_info was emptied - and the
+    # saved object no longer equals what is read back from its own file.
+    res_aliases = {'self.resources'} | {t.id for a in walk_no_nested(sv) if isinstance(a, ast.Assign) and dotted(a.value) == 'self.resources' for t in a.targets if isinstance(t, ast.Name)}
+    res_stores = [a for a in walk_no_nested(sv) if isinstance(a, (ast.Assign, ast.AugAssign, ast.Delete)) for t in (a.targets if not isinstance(a, ast.AugAssign) else [a.target])
+                  if isinstance(t, ast.Subscript) and (dotted(t.value) or '') in res_aliases]
+    res_stores += [c for c in walk_no_nested(sv) if isinstance(c, ast.Call) and isinstance(c.func, ast.Attribute) and c.func.attr in ('update', 'setdefault', 'pop', 'clear', 'popitem') and (dotted(c.func.value) or '') in res_aliases]
+    ctx.check('C15.F7', not res_stores, vtf, res_stores[0] if res_stores else sv, f'VTF.save() edits the resource table of the object it is saving (`{U(res_stores[0])[:70] if res_stores else ""}`): the encoded sheet stays in '
+              'self.resources, so the object differs from what its own file reads back, and a later save writes the stale copy even after sheet_info was changed', func='VTF.save', text='save() does not edit self.resources')
     rc = [n for n in walk_no_nested(sv) if isinstance(n, ast.Assign) and dotted(n.targets[0]) == res_count_var]
     if len(rc) != 1:
         raise AnalysisError('save(): res_count not found')
@@ -863,7 +873,6 @@ def run(ctx: Any, prog: Program) -> None:
     # image blocks and the particle sheet from `sheet_info`).  read() must therefore keep those ids out of the raw table - never store them, or
     # take them out when decoding - otherwise the next save() writes the id twice (which read() itself rejects as a duplicate) and a changed
     # sheet_info is shadowed by the stale raw copy.
-    ctx.rule('C15.F7', 'read() keeps out of the raw resource table every id that save() writes from structured state', floor=3)
     sv7, rd7 = vm['save'], vm['read']
     own_ids = sorted({x.value.attr for c in ast.walk(sv7) if isinstance(c, ast.Call) and (dotted(c.func) or '').endswith('pack') for x in c.args
                       if isinstance(x, ast.Attribute) and x.attr == 'value' and isinstance(x.value, ast.Attribute) and dotted(x.value.value) == 'ResourceID'})
@@ -956,8 +965,28 @@ def run(ctx: Any, prog: Program) -> None:
     else:
         order = [a.attr for a in packs[0].args[1:] if isinstance(a, ast.Attribute) and dotted(a.value) == 'self']
         ctx.check('C15.F6', order == fields, vtf, packs[0], f'TexCoord.to_binary packs {order} but from_binary passes the values positionally to the fields {fields}', func='TexCoord.to_binary', text='TexCoord field order')
-    ok = "seq_num, clamp, frame_count, total_time" in fsrc.replace('(', '').replace(')', '') and 'SheetSequence(frames, clamp, total_time)' in fsrc
-    ctx.shape('C15.F6', ok, vtf, fr_, 'sequence header fields reach the SheetSequence constructor in (frames, clamp, duration) order', func='SheetSequence.from_resource', text='sequence constructor linkage')
+    # the sequence header (`<Ixxx?If`: number, clamp, frame count, total time) reaches the constructor: clamp and the total time are the
+    # names the header was unpacked into, and nothing re-binds them in between (a per-frame `[duration] = ...` under the same name overwrites
+    # the total with the last frame's duration)
+    hdr = [a for a in ast.walk(fr_) if isinstance(a, ast.Assign) and isinstance(a.targets[0], ast.Tuple) and len(a.targets[0].elts) == 4 and all(isinstance(e, ast.Name) for e in a.targets[0].elts)
+           and isinstance(a.value, ast.Call) and (dotted(a.value.func) or '').endswith('unpack_from') and a.value.args and isinstance(a.value.args[0], ast.Constant) and a.value.args[0].value == '<Ixxx?If']
+    ctors6 = [c for c in ast.walk(fr_) if isinstance(c, ast.Call) and dotted(c.func) == 'SheetSequence']
+    if len(hdr) != 1 or len(ctors6) != 1:
+        ctx.shape('C15.F6', False, vtf, fr_, 'sequence header unpack / SheetSequence(...) construction not found once', func='SheetSequence.from_resource', text='sequence constructor linkage')
+    else:
+        h_names = [e.id for e in hdr[0].targets[0].elts]
+        init6 = vtf.func('SheetSequence.__init__')
+        iparams = [a.arg for a in init6.args.args[1:]]
+        passed6: Dict[str, ast.AST] = {iparams[i]: a for i, a in enumerate(ctors6[0].args) if i < len(iparams)}
+        passed6.update({k.arg: k.value for k in ctors6[0].keywords if k.arg})
+        want6 = {'clamp': h_names[1], 'duration': h_names[3]}
+        for prm6, nm6 in want6.items():
+            got6 = passed6.get(prm6)
+            ctx.check('C15.F6', isinstance(got6, ast.Name) and got6.id == nm6, vtf, ctors6[0], f'SheetSequence({prm6}=...) is given `{U(got6) if got6 is not None else "nothing"}`, the header field was unpacked into `{nm6}`',
+                      func='SheetSequence.from_resource', text=f'sequence header {prm6} reaches the constructor')
+            rebinds6 = [x for x in ast.walk(fr_) if isinstance(x, ast.Name) and x.id == nm6 and isinstance(x.ctx, ast.Store) and not any(x is e for e in hdr[0].targets[0].elts)]
+            ctx.check('C15.F6', not rebinds6, vtf, rebinds6[0] if rebinds6 else hdr[0], f'`{nm6}`, which holds the {prm6} field of the sequence header, is assigned again at line {rebinds6[0].lineno if rebinds6 else 0} before it reaches '
+                      'the constructor: the sequence gets that later value (the last frame\'s duration) instead of the stored total', func='SheetSequence.from_resource', text=f'sequence header {prm6} not re-bound')
     # the sheet layout is the caller's choice (`sheet_seq_version`), and it applies to the whole sheet: layout 0 keeps one coordinate per frame.
     # save() hands the parameter to make_data as it came; a switch to the smaller layout decided by what *some* sequence looks like (`any`)
     # drops coordinates 2-4 of all the others.  (Decided by `all`, the switch would be lossless - that is content reasoning this check does
@@ -1053,6 +1082,8 @@ def accepted_region(test: ast.AST, coords: Tuple[str, str] = ('x', 'y')) -> Dict
 
 
 MUTANTS: List[Dict[str, Any]] = [
+    {'id': 'sequence_total_shares_name_with_frame_duration', 'file': 'vtf.py', 'find': "                frame_count,\n                total_time,\n            ) = struct.unpack_from('<Ixxx?If', data, offset)", 'replace': "                frame_count,\n                duration,\n            ) = struct.unpack_from('<Ixxx?If', data, offset)", 'extra': [{'file': 'vtf.py', 'find': "            sequences[seq_num] = SheetSequence(frames, clamp, total_time)", 'replace': "            sequences[seq_num] = SheetSequence(frames=frames, clamp=clamp, duration=duration)"}], 'expect': 'C15.F6'},
+    {'id': 'save_parks_sheet_in_resources', 'file': 'vtf.py', 'find': "            res_count = len(self.resources) + 2  # low/high format are always present.\n", 'replace': "            if self.sheet_info:\n                self.resources[ResourceID.PARTICLE_SHEET] = Resource(0, b'')\n            res_count = len(self.resources) + 2  # low/high format are always present.\n", 'expect': 'C15.F7'},
     {'id': 'no_mip_textures_saved_with_one_level', 'file': 'vtf.py', 'find': "        deferred.defer('header_size', '<I')\n", 'replace': "        mipmap_count = self.mipmap_count\n        if VTFFlags.NO_MIP in self.flags:\n            mipmap_count = min(mipmap_count, 1)\n        deferred.defer('header_size', '<I')\n", 'extra': [{'file': 'vtf.py', 'find': "            self.mipmap_count,\n            self.low_format.bin_value(asw_or_later),", 'replace': "            mipmap_count,\n            self.low_format.bin_value(asw_or_later),"}, {'file': 'vtf.py', 'find': "        for data_mipmap in reversed(range(self.mipmap_count)):\n            for frame_ind in range(self.frame_count):\n                for depth_or_cube in depth_seq:\n                    frame = self._frames[", 'replace': "        for data_mipmap in reversed(range(mipmap_count)):\n            for frame_ind in range(self.frame_count):\n                for depth_or_cube in depth_seq:\n                    frame = self._frames["}], 'expect': 'C15.F2'},
     {'id': 'ok_mipmap_count_in_a_local', 'file': 'vtf.py', 'find': "        deferred.defer('header_size', '<I')\n", 'replace': "        mipmap_count = self.mipmap_count\n        deferred.defer('header_size', '<I')\n", 'extra': [{'file': 'vtf.py', 'find': "            self.mipmap_count,\n            self.low_format.bin_value(asw_or_later),", 'replace': "            mipmap_count,\n            self.low_format.bin_value(asw_or_later),"}, {'file': 'vtf.py', 'find': "        for data_mipmap in reversed(range(self.mipmap_count)):\n            for frame_ind in range(self.frame_count):\n                for depth_or_cube in depth_seq:\n                    frame = self._frames[", 'replace': "        for data_mipmap in reversed(range(mipmap_count)):\n            for frame_ind in range(self.frame_count):\n                for depth_or_cube in depth_seq:\n                    frame = self._frames["}], 'expect': None, 'note': 'negative control: the attribute taken into a local'},
     {'id': 'sheet_layout_downgraded_when_any_sequence_is_single', 'file': 'vtf.py', 'find': "                particle_data = SheetSequence.make_data(self.sheet_info, sheet_seq_version)", 'replace': "                if sheet_seq_version == 1 and any(all(f[1] == f[2] == f[3] == f[4] for f in seq.frames) for seq in self.sheet_info.values()):\n                    sheet_seq_version = 0\n                particle_data = SheetSequence.make_data(self.sheet_info, sheet_seq_version)", 'expect': 'C15.F6'},
